@@ -33,6 +33,11 @@ def run(prog, rep):
     # .. which identifies len(map) with len(items): true only while the two lists are mutated pairwise on every path
     from .c01 import equivalence_discharge
     equivalence_discharge(prog, cd, rep)
+    # .. and relies on the field primitives: bwrite / bpad emit exactly itemsize x n bytes also into an in-memory buffer (a pad that
+    # only seeks adds nothing at the end of a buffer), and a string read back from a table entry can be written again (the same codec)
+    from .. import primitives as PR
+    rep.attempt(PR.tdftype_primitives, prog, rep)
+    rep.attempt(PR.string_codec, prog, rep)
     # add_block places the block at the offset of the slot it takes over (the end of the data) and re-points the later slots
     rep.attempt(ct.check_c02, rep)
     rep.attempt(lambda: M.parse_on_enter(ct, rep))
